@@ -447,6 +447,33 @@ def run_draw(case, env, res):
             os.unlink(path)
 
 
+def run_new_draw(case, env, res):
+    """Renderable.draw(padding=...), stills and animations, on the pty: the screen at every
+    flush must be one frame inside its padding (margins of an empty fill left untouched) --
+    the observer is the one of C06, the cases are drawn for the padding's sake."""
+    from . import c06
+
+    sub = Result({})
+    errs = c06.run_new(case, env, sub)
+    res.count("surface Renderable.draw (%s)" % ("animation" if case["n"] != 1 and case["animate"] else "still"))
+    res.count("frames observed at flush boundaries", sub.counters.get("frames observed at flush boundaries", 0))
+    pd = case["pad"]
+    res.case(("new-draw", case["kind"], tuple(case["size"]), str(pd), case["n"], case["loops"]))
+    if errs:
+        res.violation("C05:new-draw:%s" % errs[0][0], "Renderable.draw() %s render %s x%d frames pad %s term %s: %r" % (case["kind"], case["size"], case["n"] or 0, pd, case["term"], errs[:3]), case)
+
+
+def gen_new_draw(rnd):
+    cols, rows = rnd.randint(8, 40), rnd.randint(6, 14)
+    W, H = rnd.randint(1, min(cols - 2, 8)), rnd.randint(1, min(rows - 3, 4))
+    fill = rnd.choice(["", "", "", " ", "*"])
+    if rnd.random() < 0.5:
+        pad = dict(type="exact", dims=[rnd.randint(0, 3), rnd.randint(0, 2), rnd.randint(0, 3), rnd.randint(0, 2)], fill=fill)
+    else:
+        pad = dict(type="aligned", width=rnd.choice([rnd.randint(W, cols), 0, -rnd.randint(0, 3)]), height=rnd.choice([rnd.randint(H, rows - 1), -2, -rnd.randint(1, 4)]), h=rnd.randrange(3), v=rnd.randrange(3), fill=fill)
+    return dict(surface="new-draw", api="new", term=[cols, rows], size=[W, H], kind=rnd.choice(["text", "sgr", "ech", "digits"]), animate=True, loops=rnd.choice([1, 2]), cache=rnd.choice([False, True]), check_size=True, allow_scroll=False, hide_cursor=rnd.random() < 0.8, echo_input=False, tty=True, r0f=rnd.choice([0, 0, 1000, rnd.randint(0, 1000)]), ki_sleep=None, n=rnd.choice([1, 2, 3, 4]), pad=pad)
+
+
 def gen_draw(rnd, persona):
     pers = vt_personality(persona)
     kind = rnd.choice(["block", "block", "kitty", "iterm2"])
@@ -503,6 +530,8 @@ def gen(rnd, persona):
         return gen_format_history(rnd)
     if rnd.random() < 0.1:
         return gen_draw(rnd, persona)
+    if rnd.random() < 0.08:
+        return gen_new_draw(rnd)
     surface = rnd.choice(["pad", "pad", "render", "iterator", "format"])
     term = [rnd.randint(1, 60), rnd.randint(1, 30)]
     W, H = rnd.randint(1, 12), rnd.randint(1, 8)
@@ -586,6 +615,8 @@ def run_shard(shard, env):
                 run_format_history(case, env, res)
             elif case["surface"] == "draw":
                 run_draw(case, env, res)
+            elif case["surface"] == "new-draw":
+                run_new_draw(case, env, res)
             else:
                 run_case(case, env, res)
         except Exception as e:
